@@ -7,7 +7,19 @@ from hypothesis import strategies as st
 from vlib.core import HypClause, EnumClause
 from vlib import util as U
 
-RULE = ("[Round-7 hardening: the exclusion sequence of the hexagonal aperture is written in a drawn order - ascending, descending, as drawn (unsorted), with entries repeated - and handed over as tuple / list / int64 array / int32 array / range object (when it is an arithmetic progression) / list of numpy integers; a list must come back unchanged; Python sets are not generated: they are not sequences, and the unchanged tree keeps the centres of excluded segments in all_centers for them.]  Composite apertures: Hypothesis draws ring count, samples per segment (6..60), segment size, gap (incl. 0), "
+RULE = ("[Round-8 hardening: (a) the coordinate arrays handed to the primitives are also an affine image of the sample grid - rotated by any angle ('rotate the "
+        "coordinates, then shade'), sheared along x or y, scaled differently in x and y, all three combined, x and y being one and the same array object (all samples on "
+        "the line y = x) - stored in another sample order (axes reversed, rows / columns permuted, transposed = indexing 'ij'); with integer coordinate arrays the frames "
+        "that keep whole numbers whole (quarter turns, shear +-1, whole-number scales).  Membership is defined sample by sample, so circle / annulus on r = hypot(x', y'), "
+        "regular_polygon, rectangle(angle != 0), rotated_ellipse, spider and rectangle_with_corner_fillets must agree with the analytic membership of every (x', y') outside "
+        "the usual band, and grow with their size parameter, in every frame; offset_circle, rectangle(angle = 0) and the 1-D-axes form of regular_polygon presuppose x = x[0, :], "
+        "y = y[:, 0] and get the separable frames (anamorphic scale, reversed / permuted order); the symmetries of the sample grid are asserted on the plain grid only.  "
+        "(b) the exclusion collection of the hexagonal aperture also as set / frozenset / dict-keys view / dict (enumerated for every single exclusion as well); per-ring "
+        "arguments of the keystone aperture as list / tuple / array / numpy scalar / one-shot generator; coefficient sets of compose_opd as one-shot generator of rows.  "
+        "(c) a failing request caught by the caller (segment_angle=45; a ring of zero segments) before the aperture that is checked; the segment angle / ring count as int, float, "
+        "numpy numbers; rotation_is_rad as bool / 1 / numpy bool; angles next to the special cases taken on exact equality (1e-12, +-1e-6, 90 +- 1e-5, 360, 450); grids with a "
+        "size-1 axis and with more than 2**16 samples (257 x 263, 3 x 21851, 1 x 65537); sample spacings 1e-6 and 1e4.]  "
+        "[Round-7 hardening: the exclusion sequence of the hexagonal aperture is written in a drawn order - ascending, descending, as drawn (unsorted), with entries repeated - and handed over as tuple / list / int64 array / int32 array / range object (when it is an arithmetic progression) / list of numpy integers; a list must come back unchanged; Python sets are not generated: they are not sequences, and the unchanged tree keeps the centres of excluded segments in all_centers for them.]  Composite apertures: Hypothesis draws ring count, samples per segment (6..60), segment size, gap (incl. 0), "
         "orientation, exclusion set, grid parity / padding / aspect (hexagonal; all single exclusions are enumerated) and "
         "centre diameter, ring widths, segments per ring (2..12), radial / azimuthal gaps, per-ring rotations in [-720,1080] degrees (float or int; "
         "angles are periodic, negative values and whole turns are valid) or None (keystone); the coordinate grid is built by the harness (sample i at (i - n//2) dx).  Oracle: documented "
@@ -49,6 +61,14 @@ ASSUMPTIONS = [
     "keystones of different rings / the centre disc are the sets ri < r <= ro, r <= rc with ri(next) >= ro(previous) whatever the "
     "rounding, so a sample owned by two of them is a violation with no band at all",
     "rotation sense of spider / rectangle / rotated_ellipse is not asserted: the mask must match one of the two senses",
+    "coordinate arrays that are not the plain grid: a primitive is the set of samples whose (x, y) lies inside the shape, whatever array the samples are stored in.  "
+    "offset_circle and rectangle(angle=0) go through optimize_xy_separable (x read from the first row, y from the first column): that the arrays are a meshgrid is their "
+    "stated precondition, they are examined in separable frames only; rectangle_with_corner_fillets reads the sample spacing from x[0, 1] - x[0, 0] to choose the number of "
+    "points on its corner arcs: its frames keep that difference positive and the band is the sagitta for that spacing",
+    "exclusion collections that are not sequences (set, frozenset, dict views, dict): the construction asks `id in exclude`, and the unchanged tree honours them for segment_ids / "
+    "windows / local_masks / local_coords / amp - but np.isin does not look into them, so all_centers keeps the centres of excluded ring segments; all_centers is not examined for "
+    "these collections (the centres are then read from the same aperture built with the exclusion written as a tuple).  One-shot iterators are consumed by the first membership "
+    "test on the unchanged tree and are not generated as `exclude`",
     "truecircle is anti-aliased on a grid normalised to [-1,1] and is checked as such",
     "apertures are generated to lie inside the grid with >= 2 samples of margin (clipping by the array edge is not examined)",
     "OPD bases: values of the basis functions are not asserted here (C07/C08), only support, constancy of the piston, linearity",
@@ -189,6 +209,10 @@ def build_hex(case, ctx, keep=None):
         exarg = [np.int64(e) if k % 2 else np.int32(e) for k, e in enumerate(seq)]
     elif ef == 'ndarray-int32':
         exarg = np.array(seq, dtype=np.int32)
+    elif ef in SETLIKE:
+        # collections that are not sequences but answer `id in exclude` (what the construction asks of the argument): the unchanged tree
+        # honours them for the segments it builds (ids, windows, masks, local coordinates, amp)
+        exarg = {'set': set, 'frozenset': frozenset, 'dict-keys': lambda q: dict.fromkeys(q).keys(), 'dict': dict.fromkeys}[ef](seq)
     else:
         exarg = tuple(seq) if ef == 'tuple' else list(seq) if ef == 'list' else np.array(seq, dtype=np.int64)
     unordered = any(b < a for a, b in zip(seq, seq[1:]))
@@ -199,10 +223,25 @@ def build_hex(case, ctx, keep=None):
     if keep is not None:
         keep.arg('x', x), keep.arg('y', y), keep.arg('exclude', exarg)
     exkeep = list(exarg) if isinstance(exarg, list) else None
-    cha = ctx.call(CompositeHexagonalAperture, x, y, rings, d, gap, segment_angle=case['angle'], exclude=exarg)
+    setkeep = sorted(exarg) if ef in SETLIKE else None
+    if case.get('after_error', False):
+        # a request that fails and is caught by the caller (an orientation the class does not build) comes first; the aperture built
+        # next must be what it would have been anyway.  Nothing is asserted about the failing request
+        ctx.label('after-a-failed-request')
+        try:
+            CompositeHexagonalAperture(x, y, rings, d, gap, segment_angle=45, exclude=exarg)
+        except Exception:       # noqa - the failing request itself is not examined
+            pass
+    # the orientation 0 / 90 written as int, float or a numpy number; the ring count as int or numpy integer
+    af = case.get('angle_form', 'int')
+    angle = {'int': int, 'float': float, 'np-int': np.int64, 'np-float': np.float64}[af](case['angle'])
+    ctx.label('angle-as:' + af)
+    cha = ctx.call(CompositeHexagonalAperture, x, y, np.int64(rings) if af.startswith('np') else rings, d, gap, segment_angle=angle, exclude=exarg)
     if exkeep is not None:
         ctx.require(len(exarg) == len(exkeep) and all(a_ is b_ for a_, b_ in zip(exarg, exkeep)), 'hex:argument-modified',
                     'the exclusion list was modified by the constructor: %r, was %r' % (exarg, exkeep))
+    if setkeep is not None:
+        ctx.require(sorted(exarg) == setkeep, 'hex:argument-modified', 'the exclusion %s was modified by the constructor: %r, was %r' % (ef, sorted(exarg), setkeep))
     return cha, (rings, d, gap, dx, spp, ny, nx, x, y, total, excl)
 
 
@@ -217,11 +256,20 @@ def check_hex(case, ctx):
               'spp:%s' % ('6-9' if spp < 10 else '10-29' if spp < 30 else '30-60'))
     ctx.nt(len(want_ids) > 1)
     ids = [int(i) for i in cha.segment_ids]
-    ctx.require(ids == want_ids, 'hex:segment-ids', 'rings=%d exclude=%r: segment_ids=%r, documented %d segments minus exclusions = %r' % (
-        rings, excl, ids, total, want_ids))
-    for name in ('windows', 'local_masks', 'all_centers', 'local_coords'):
-        ctx.require(len(getattr(cha, name)) == len(want_ids), 'hex:count', 'len(%s)=%d, expected %d segments (rings=%d, exclude=%r)' % (
-            name, len(getattr(cha, name)), len(want_ids), rings, excl))
+    ctx.require(ids == want_ids, 'hex:segment-ids', 'rings=%d exclude=%r (given as %s, %s): segment_ids=%r, documented %d segments minus exclusions = %r' % (
+        rings, excl, case.get('exclude_form', 'tuple'), case.get('exclude_order', 'ascending'), ids, total, want_ids))
+    setlike = case.get('exclude_form', 'tuple') in SETLIKE
+    for name in ('windows', 'local_masks', 'local_coords') + (() if setlike else ('all_centers',)):
+        ctx.require(len(getattr(cha, name)) == len(want_ids), 'hex:count', 'len(%s)=%d, expected %d segments (rings=%d, exclude=%r as %s)' % (
+            name, len(getattr(cha, name)), len(want_ids), rings, excl, case.get('exclude_form', 'tuple')))
+    centers = cha.all_centers
+    if setlike:
+        # the segments are checked like any others; where each one belongs is read from the same aperture built with the exclusion written
+        # as a tuple (all_centers is not examined for collections that are no sequences, see ASSUMPTIONS)
+        from prysm.segmented import CompositeHexagonalAperture
+        ref = ctx.call(CompositeHexagonalAperture, x, y, rings, d, gap, segment_angle=case['angle'], exclude=tuple(excl))
+        centers = ref.all_centers
+        ctx.require(len(centers) == len(want_ids), 'hex:count', 'len(all_centers)=%d, expected %d segments (rings=%d, exclude=%r as tuple)' % (len(centers), len(want_ids), rings, excl))
     amp = np.asarray(cha.amp)
     U.check_shape(amp, (ny, nx), 'hex:amp')
     cnt = place((ny, nx), cha.windows, cha.local_masks, ctx, 'hex')
@@ -230,7 +278,7 @@ def check_hex(case, ctx):
     if cnt.max() > 1:
         yy, xx = np.nonzero(cnt > 1)
         care = np.ones(len(yy), dtype=bool)
-        for (w, m, c) in zip(cha.windows, cha.local_masks, cha.all_centers):
+        for (w, m, c) in zip(cha.windows, cha.local_masks, centers):
             pm = placed((ny, nx), w, m)[yy, xx]
             mg = poly_margin(x[yy, xx], y[yy, xx], 6, rseg, c, case['angle'])
             care &= ~(pm & (np.abs(mg) <= 1e-7 * rseg))
@@ -251,7 +299,7 @@ def check_hex(case, ctx):
     if clipped:
         ctx.label('grid-smaller-than-aperture', 'segment-wholly-off-grid' if any(np.asarray(m).size == 0 or not np.asarray(m).any() for m in cha.local_masks) else 'all-segments-on-grid')
     xlo, xhi, ylo, yhi = float(x.min()), float(x.max()), float(y.min()), float(y.max())
-    for sid, m, c in zip(ids, cha.local_masks, cha.all_centers):
+    for sid, m, c in zip(ids, cha.local_masks, centers):
         if clipped and not (xlo + dx <= c[0] - rseg and c[0] + rseg <= xhi - dx and ylo + dx <= c[1] - rseg and c[1] + rseg <= yhi - dx):
             continue        # the array edge cuts this hexagon: its area on the grid is not the area of its shape
         a = float(np.count_nonzero(m)) * dx * dx
@@ -261,7 +309,7 @@ def check_hex(case, ctx):
     # closer than RASTER_BAND_HEX sample spacings to its edges (the code clips at most one row / column of its local
     # window at a vertex, depth < sin(60 deg) dx; see ASSUMPTIONS)
     band = RASTER_BAND_HEX * dx
-    for sid, w, m, c in zip(ids, cha.windows, cha.local_masks, cha.all_centers):
+    for sid, w, m, c in zip(ids, cha.windows, cha.local_masks, centers):
         big = tuple(slice(max(0, sl.start - 4), sl.stop + 4) for sl in w)
         pm = placed((ny, nx), w, m)[big]
         mg = poly_margin(x[big], y[big], 6, rseg, c, case['angle'])
@@ -291,7 +339,8 @@ def check_hex(case, ctx):
     return cha, cnt
 
 
-EXCLUDE_FORMS = ['tuple', 'tuple', 'list', 'ndarray', 'ndarray-int32', 'range', 'list-of-numpy-ints']
+SETLIKE = ('set', 'frozenset', 'dict-keys', 'dict')
+EXCLUDE_FORMS = ['tuple', 'tuple', 'list', 'ndarray', 'ndarray-int32', 'range', 'list-of-numpy-ints', 'set', 'set', 'frozenset', 'dict-keys', 'dict']
 EXCLUDE_ORDERS = ['ascending', 'as-drawn', 'as-drawn', 'descending', 'repeats']
 
 
@@ -306,7 +355,8 @@ def strat_hex(tier):
                              st.lists(st.sampled_from(range(nhex(r))), min_size=1, max_size=4, unique=True),
                              st.lists(st.sampled_from(range(nhex(r))), min_size=2, max_size=4, unique=True)),
         'layout': U.layouts, 'exclude_form': st.sampled_from(EXCLUDE_FORMS), 'exclude_order': st.sampled_from(EXCLUDE_ORDERS),
-        'second': st.sampled_from([False, False, False, True]),
+        'second': st.sampled_from([False, False, False, True]), 'after_error': st.sampled_from([False, False, False, True]),
+        'angle_form': st.sampled_from(['int', 'int', 'float', 'np-int', 'np-float']),
         'crop': st.one_of(st.just([1.0, 1.0]), st.just([1.0, 1.0]), st.tuples(st.sampled_from([1.0, 0.8, 0.5, 0.3, 0.15]), st.sampled_from([1.0, 0.8, 0.5, 0.3, 0.15])).map(list)),
     }))
 
@@ -317,7 +367,7 @@ def enum_hex_single(tier):
             for e in range(nhex(r)):
                 yield {'rings': r, 'd': 1.0, 'gapf': [0.0, 0.02, 0.1][e % 3], 'sppf': [0.0, 0.15, 0.3][(e // 3) % 3], 'angle': angle,
                        'parity': ['odd', 'even'][(e + r) % 2], 'pad': e % 4, 'aspect': 'square', 'exclude': [e],
-                       'layout': U.LAYOUTS[(e + angle // 90) % len(U.LAYOUTS)], 'exclude_form': ['tuple', 'list', 'ndarray'][e % 3]}
+                       'layout': U.LAYOUTS[(e + angle // 90) % len(U.LAYOUTS)], 'exclude_form': ['tuple', 'list', 'ndarray', 'set', 'frozenset', 'dict-keys'][(e + e // 6) % 6]}
 
 
 def check_hex_tiling(case, ctx):
@@ -357,7 +407,7 @@ def orders_of(name, picks, piston_at):
     return out, k
 
 
-COEF_FORMS = ['array', 'array', 'list', 'tuple-of-arrays', 'f32', 'int', 'F', 'strided']
+COEF_FORMS = ['array', 'array', 'list', 'tuple-of-arrays', 'f32', 'int', 'F', 'strided', 'generator']
 
 
 def coef_arg(C, form):
@@ -371,6 +421,9 @@ def coef_arg(C, form):
         return [[float(v) for v in row] for row in C], C
     if form == 'tuple-of-arrays':
         return tuple(np.array(row) for row in C), C
+    if form == 'generator':
+        # "an iterable of coefficients for each segment": a one-shot generator of rows
+        return (np.array(row) for row in C.copy()), C
     if form in ('F', 'strided'):
         return U.relayout(C, form), C
     return C.copy(), C
@@ -747,11 +800,36 @@ def build_keystone(case, ctx, keep=None):
     wa = list(widths) if case['list_args'] else (widths[0] if len(set(widths)) == 1 else list(widths))
     sa = list(case['spr']) if case['list_args'] or len(set(case['spr'])) > 1 else case['spr'][0]
     ra = list(rots) if isinstance(rots, list) else rots
+    # "float or Iterable": the per-ring values as list / tuple / array / one-shot generator, single values also as numpy scalars
+    sf = case.get('seq_form', 'list')
+    ctx.label('ring-arguments-as:' + sf)
+
+    def seq(v, scalar_type):
+        if isinstance(v, list):
+            if sf == 'tuple':
+                return tuple(v)
+            if sf == 'ndarray' and all(q is not None for q in v):
+                return np.array(v)
+            if sf == 'generator':
+                return (q for q in list(v))
+            return v
+        if sf == 'ndarray' and v is not None:
+            return scalar_type(v)      # a numpy scalar where one number is given
+        return v
+    wa, sa, ra = seq(wa, np.float64), seq(sa, np.int64), seq(ra, np.float64)
     if keep is not None:
         keep.arg('x', x), keep.arg('y', y)
+    if case.get('after_error', False):
+        # a failing request (a ring of zero segments), caught by the caller, before the aperture that is checked
+        ctx.label('after-a-failed-request')
+        try:
+            CompositeKeystoneAperture(x, y, 2 * rc, rings, widths[0], 0, gap, case['azimuthal_gap'], None)
+        except Exception:       # noqa - the failing request itself is not examined
+            pass
     given = (_copy_arg(wa), _copy_arg(sa), _copy_arg(ra))
     ka = ctx.call(CompositeKeystoneAperture, x, y, 2 * rc, rings, wa, sa, gap, case['azimuthal_gap'], ra)
-    ctx.require((wa, sa, ra) == given, 'keystone:argument-modified', 'ring_radius / segments_per_ring / rotation_per_ring lists changed: %r -> %r' % (given, (wa, sa, ra)))
+    ctx.require(all(_same_arg(g_, a_) for g_, a_ in zip(given, (wa, sa, ra))), 'keystone:argument-modified',
+                'ring_radius / segments_per_ring / rotation_per_ring changed: %r -> %r' % (given, (wa, sa, ra)))
     return ka, (rc, rings, widths, gap, dx, n, x, y)
 
 
@@ -921,7 +999,8 @@ def strat_keystone(tier):
     anyrot = st.integers(0, 3599).map(lambda v: ((v * 2654435761) % 3600) / 10)
     rot1 = st.one_of(st.none(), anyrot, anyrot, WIDEROT, WIDEROT, WIDEROT_INT, st.sampled_from([0.0, 90.0, 180.0, 270.0, 360.0, 22.5, 45.0, 313.2] + ROT_SPECIAL))
 
-    common = {'layout': U.layouts, 'second': st.sampled_from([False, False, False, True])}
+    common = {'layout': U.layouts, 'second': st.sampled_from([False, False, False, True]), 'after_error': st.sampled_from([False, False, False, True]),
+              'seq_form': st.sampled_from(['list', 'list', 'tuple', 'ndarray', 'generator'])}
 
     def body(rings):
         return st.fixed_dictionaries({
@@ -977,6 +1056,7 @@ def strat_keystone_opd(tier):
             'picks': st.lists(st.integers(0, 5), min_size=0, max_size=3), 'piston_at': st.integers(0, 3), 'seed': U.seeds,
             'probe': st.lists(st.integers(0, 30), min_size=1, max_size=3),
             **{k: v for k, v in opd_extras().items() if k not in ('exclude_form', 'exclude_order')},
+            'seq_form': st.sampled_from(['list', 'list', 'tuple', 'ndarray', 'generator']),
         })
     return st.integers(1, 2).flatmap(body)
 
@@ -1012,7 +1092,7 @@ def check_keystone_opd(case, ctx):
     ctx.require(not zc.any(), 'keystone:argument-modified', 'compose_opd changed the centre coefficients it was given')
     # centre: piston, leakage, linearity with the segments held at zero
     zs = np.zeros((nseg, len(sorders)))
-    check_opd_common(ctx, lambda c, **k: ka.compose_opd(c[0], zs.copy(), **k), 1, len(corders), cpk, [pmc], (n, n), case['seed'] + 1, 'keystone:center', [0], case)
+    check_opd_common(ctx, lambda c, **k: ka.compose_opd(next(iter(c)), zs.copy(), **k), 1, len(corders), cpk, [pmc], (n, n), case['seed'] + 1, 'keystone:center', [0], case)
     if case.get('tie') is not None:
         # the same piston on the centre and on every segment (a global piston), and the centre's coefficient vector being the very
         # row object / an equal copy of the segments' rows when both bases have as many modes: the map is the piston on every
@@ -1048,36 +1128,133 @@ def check_keystone_opd(case, ctx):
 
 # ---- primitives ------------------------------------------------------------------------------------------------------
 GRID_DTYPES = ['f64', 'f64', 'f64', 'f32', 'i64', 'i32']
+FRAME_KINDS = ['rotated', 'rotated', 'rotated', 'sheared', 'anamorphic', 'anamorphic+sheared', 'general', 'order-only', 'same-object']
+FRAME_ORDERS = ['grid', 'grid', 'grid', 'rows-reversed', 'cols-reversed', 'both-reversed', 'rows-permuted', 'cols-permuted', 'both-permuted', 'transposed']
+
+
+def frame_s():
+    """the coordinate frame the sample grid is expressed in when it is handed to a primitive: None (the plain grid) or an affine image of
+    it - rotated by any angle ("rotate the coordinates, then shade"), sheared along x or y, scaled differently in x and y, all three - with
+    the samples stored in another order (axes reversed, rows / columns permuted, transposed = indexing='ij'); 'same-object': x and y are
+    one and the same array object (all samples on the line y = x)"""
+    rot = st.one_of(st.sampled_from([30.0, 45.0, 90.0, -90.0, 180.0, 60.0, 17.0]), st.integers(-1800, 1800).map(lambda v: v / 10))
+    sc = st.sampled_from([0.5, 0.8, 1.0, 1.25, 2.0, 3.0])
+    return st.one_of(st.none(), st.fixed_dictionaries({
+        'kind': st.sampled_from(FRAME_KINDS), 'rot': rot, 'shear': st.sampled_from([0.3, -0.3, 0.5, 1.0, -1.0, 0.1]), 'shear_axis': st.sampled_from(['x', 'y']),
+        'scale': st.tuples(sc, sc).map(list), 'order': st.sampled_from(FRAME_ORDERS), 'pseed': st.integers(0, 65535)}))
+
+
+def frame_matrix(fr, whole=False):
+    """2x2 matrix of the frame: scale, then shear, then rotation.  whole=True (integer coordinate arrays): entries that keep whole
+    numbers whole - scales rounded to >= 1, shear +-1, rotation snapped to a multiple of 90 degrees"""
+    kind = fr['kind']
+    M = np.eye(2)
+    if kind in ('anamorphic', 'anamorphic+sheared', 'general'):
+        sx, sy = (float(v) for v in fr['scale'])
+        if whole:
+            sx, sy = max(1.0, float(round(sx))), max(1.0, float(round(sy)))
+        M = np.diag([sx, sy]) @ M
+    if kind in ('sheared', 'anamorphic+sheared', 'general'):
+        sh = float(fr['shear'])
+        if whole:
+            sh = 1.0 if sh > 0 else -1.0
+        M = (np.array([[1.0, sh], [0.0, 1.0]]) if fr['shear_axis'] == 'x' else np.array([[1.0, 0.0], [sh, 1.0]])) @ M
+    if kind in ('rotated', 'general'):
+        a = float(fr['rot'])
+        if whole:
+            c_, s_ = [(1.0, 0.0), (0.0, 1.0), (-1.0, 0.0), (0.0, -1.0)][int(round(a / 90.0)) % 4]
+        else:
+            c_, s_ = math.cos(math.radians(a)), math.sin(math.radians(a))
+        M = np.array([[c_, -s_], [s_, c_]]) @ M
+    return M
+
+
+def frame_separable(fr):
+    """x depends on the column only and y on the row only (what optimize_xy_separable and 1-D coordinate axes presuppose)"""
+    return fr is None or (fr['kind'] in ('anamorphic', 'order-only') and fr['order'] != 'transposed')
+
+
+def framed(x0, y0, fr, whole=False):
+    """float64 coordinate arrays of the samples of the plain grid (x0, y0) in the frame fr, stored in the frame's sample order"""
+    if fr is None:
+        return x0, y0
+    if fr['kind'] == 'same-object':
+        X, Y = x0, x0
+    else:
+        M = frame_matrix(fr, whole)
+        X, Y = M[0, 0] * x0 + M[0, 1] * y0, M[1, 0] * x0 + M[1, 1] * y0
+    order = fr['order']
+    ny, nx = x0.shape
+
+    def reorder(A):
+        if order in ('rows-reversed', 'both-reversed'):
+            A = A[::-1]
+        if order in ('cols-reversed', 'both-reversed'):
+            A = A[:, ::-1]
+        if order in ('rows-permuted', 'both-permuted'):
+            A = A[U.rng_of(fr['pseed'], 301).permutation(ny)]
+        if order in ('cols-permuted', 'both-permuted'):
+            A = A[:, U.rng_of(fr['pseed'], 302).permutation(nx)]
+        if order == 'transposed':
+            A = A.T
+        return np.ascontiguousarray(A)
+    return reorder(X), reorder(Y)
 
 
 def prim_extras():
     """memory layout and dtype of the coordinate arrays handed to the primitive; size parameters snapped to whole numbers of
-    samples (samples exactly on the analytic boundary)"""
-    return {'layout': U.layouts, 'gdtype': st.sampled_from(GRID_DTYPES), 'snap': st.booleans()}
+    samples (samples exactly on the analytic boundary); the frame the coordinates are expressed in"""
+    return {'layout': U.layouts, 'gdtype': st.sampled_from(GRID_DTYPES), 'snap': st.booleans(), 'frame': frame_s()}
 
 
 class PG:
-    """coordinate grid of a primitive case: .x .y as handed to prysm (layout / dtype of the case), .xe .ye the same values
-    as float64, .dx, .f32, band(scale) = don't-care distance to the analytic boundary"""
+    """coordinate grid of a primitive case: .x .y as handed to prysm (frame / layout / dtype of the case), .xe .ye the same values
+    as float64, .dx, .f32, band(scale) = don't-care distance to the analytic boundary.  .plain: the coordinates are the plain grid
+    (grid symmetries apply); .separable: x depends on the column and y on the row only; .xs .ys (.xse .yse): the coordinates for the
+    routines that presuppose that (offset_circle, rectangle(angle=0): optimize_xy_separable) - the framed ones when the frame is
+    separable, the plain grid otherwise"""
 
     def __init__(self, case, ctx, keep):
         ny, nx = case['shape']
         self.dt = case.get('gdtype', 'f64')
         self.layout = case.get('layout', 'C')
         self.dx = float(case['dx'])
-        if self.dt in ('i64', 'i32'):
+        whole = self.dt in ('i64', 'i32')
+        if whole:
             self.dx = max(1.0, float(round(self.dx)))       # integer arrays: whole-number coordinates
         self.x, self.y = grid(ny, nx, self.dx, self.layout, self.dt)
+        self.frame = case.get('frame')
+        self.plain = self.frame is None
+        self.separable = frame_separable(self.frame)
+        self.half = min(ny, nx) // 2 * self.dx
+        self.xs, self.ys = self.x, self.y
+        if not self.plain:
+            x0, y0 = grid(ny, nx, self.dx)
+            X, Y = framed(x0, y0, self.frame, whole)
+            if self.dt in ('f32', 'i64', 'i32'):
+                dt = {'f32': np.float32, 'i64': np.int64, 'i32': np.int32}[self.dt]
+                X, Y = X.astype(dt), Y.astype(dt)
+            self.x = U.relayout(X, self.layout)
+            self.y = self.x if self.frame['kind'] == 'same-object' else U.relayout(Y, self.layout)
+            if self.separable:
+                self.xs, self.ys = self.x, self.y
+            ctx.label('frame:' + self.frame['kind'], 'sample-order:' + self.frame['order'], 'frame:separable' if self.separable else 'frame:not-separable')
+        else:
+            ctx.label('frame:plain-grid')
         self.xe, self.ye = self.x.astype(np.float64), self.y.astype(np.float64)
+        self.xse, self.yse = self.xs.astype(np.float64), self.ys.astype(np.float64)
+        self.ext = float(max(np.abs(self.xe).max(), np.abs(self.ye).max()))
         self.f32 = self.dt == 'f32'
         self.snap = bool(case.get('snap', False))
         self.exact = self.snap and not self.f32
         keep.arg('x', self.x), keep.arg('y', self.y)
+        if self.xs is not self.x:
+            keep.arg('x (plain grid)', self.xs), keep.arg('y (plain grid)', self.ys)
         ctx.label('grid-dtype:' + self.dt, 'layout:' + self.layout, 'snapped-to-samples' if self.snap else 'generic-size')
 
     def band(self, scale):
         # float32 coordinates: the routines compare / rotate in float32 (a Python-float radius is rounded to float32 too)
-        return (1e-5 if self.f32 else 1e-9) * scale
+        return (1e-5 if self.f32 else 1e-9) * max(scale, self.ext)
 
     def size(self, v):
         """a size parameter, snapped to a whole number of samples when the case says so (k*dx is computed like the sample
@@ -1123,11 +1300,21 @@ def check_symmetry(ctx, mask, margin, band, ops, bucket, what):
         ctx.require(not diff.any(), bucket + ':symmetry', '%s is not invariant under %s about the origin sample: %d samples differ' % (what, op, int(diff.sum())))
 
 
+def shape_s(lo, N):
+    """grid shapes: both axes lo..N; rarely a size-1 axis, or more than 2**16 samples with prime axis lengths (square-ish and thin)"""
+    ax = st.integers(lo, N)
+    usual = st.tuples(ax, ax).map(list)
+    return st.one_of(*([usual] * 12), st.tuples(st.just(1), ax).map(list), st.tuples(ax, st.just(1)).map(list),
+                     st.sampled_from([[257, 263], [3, 21851], [21851, 3], [1, 65537]]))
+
+
+DXS = [1.0, 0.1, 0.037, 2.5, 1.0, 0.1, 0.037, 1e-6, 1e4]      # sample spacings: order 1, and micrometres in metres / large units
+
+
 def strat_round(tier):
     N = 40 if tier == 'quick' else 96
-    ax = st.integers(5, N)
     return st.fixed_dictionaries({
-        'shape': st.tuples(ax, ax).map(list), 'dx': st.sampled_from([1.0, 0.1, 0.037, 2.5]),
+        'shape': shape_s(5, N), 'dx': st.sampled_from(DXS),
         'rad': st.integers(0, 1500).map(lambda v: v / 1000), 'rad2': st.integers(0, 1500).map(lambda v: v / 1000),   # fractions of the half-extent
         'center': st.one_of(st.just([0.0, 0.0]), st.tuples(st.integers(-50, 50), st.integers(-50, 50)).map(lambda t: [t[0] / 10, t[1] / 10])),  # in samples
         **prim_extras(),
@@ -1139,11 +1326,11 @@ def check_round(case, ctx):
     from prysm import geometry as G
     keep = Keep(ctx)
     g = PG(case, ctx, keep)
-    x, y, dx = g.x, g.y, g.dx
-    ny, nx = x.shape
-    half = min(ny, nx) // 2 * dx
+    x, y, dx = g.xs, g.ys, g.dx           # (offset_circle: optimize_xy_separable)
+    ny, nx = g.x.shape
+    half = g.half
     r1, r2 = sorted([g.size(case['rad'] * half), g.size(case['rad2'] * half)])
-    rarg = keep.arg('r', g.radial())      # handed to prysm
+    rarg = keep.arg('r', g.radial())      # handed to prysm: radial coordinate of the samples in the frame of the case
     r = rarg.astype(np.float64)           # its values
     band = g.band(max(half, r2, dx))
     ctx.label('odd' if ny % 2 and nx % 2 else 'has-even-axis', 'square' if ny == nx else 'nonsquare', 'offset' if any(case['center']) else 'centred')
@@ -1153,7 +1340,8 @@ def check_round(case, ctx):
     ctx.require(msg is None, 'circle:membership', msg or '')
     c1 = ctx.call(G.circle, r1, rarg)
     ctx.require(not (np.asarray(c1) & ~np.asarray(c2)).any(), 'circle:monotone', 'circle(%g) is not contained in circle(%g)' % (r1, r2))
-    check_symmetry(ctx, c2, r - r2, band, ['flipx', 'flipy', 'rot180', 'rot90', 'transpose'], 'circle', 'circle(%g)' % r2)
+    if g.plain:
+        check_symmetry(ctx, c2, r - r2, band, ['flipx', 'flipy', 'rot180', 'rot90', 'transpose'], 'circle', 'circle(%g)' % r2)
     # annulus (inclusive on both radii)
     an = keep.result('annulus(r1, r2)', ctx.call(G.annulus, r1, r2, rarg))
     inside = (r >= r1) & (r <= r2)
@@ -1165,18 +1353,19 @@ def check_round(case, ctx):
     ctx.require(not (np.asarray(an) & ~np.asarray(an_big)).any(), 'annulus:monotone', 'annulus grows with rout: (%g,%g) not inside (%g,%g)' % (r1, r2, r1, r3))
     an_small = ctx.call(G.annulus, r1 + 0.41 * dx, r2, rarg)
     ctx.require(not (np.asarray(an_small) & ~np.asarray(an)).any(), 'annulus:monotone', 'annulus shrinks with rin')
-    check_symmetry(ctx, an, margin, band, ['flipx', 'flipy', 'rot180', 'rot90', 'transpose'], 'annulus', 'annulus(%g,%g)' % (r1, r2))
+    if g.plain:
+        check_symmetry(ctx, an, margin, band, ['flipx', 'flipy', 'rot180', 'rot90', 'transpose'], 'annulus', 'annulus(%g,%g)' % (r1, r2))
     # offset circle
     cx, cy = case['center'][0] * dx, case['center'][1] * dx
     oc = keep.result('offset_circle(r2)', ctx.call(G.offset_circle, r2, x, y, (cx, cy)))
-    ro = np.hypot(g.xe - cx, g.ye - cy)
+    ro = np.hypot(g.xse - cx, g.yse - cy)
     msg = compare_mask(ctx, oc, ro <= r2, ro - r2, band, 'offset_circle', 'offset_circle(%g, center=(%g,%g))' % (r2, cx, cy))
     ctx.require(msg is None, 'offset_circle:membership', msg or '')
     oc1 = ctx.call(G.offset_circle, r1, x, y, (cx, cy))
     ctx.require(not (np.asarray(oc1) & ~np.asarray(oc)).any(), 'offset_circle:monotone', 'offset_circle(%g) not inside offset_circle(%g)' % (r1, r2))
     # offset by whole samples = the centred circle moved by that many samples
     sx, sy = case['center']
-    if float(sx).is_integer() and float(sy).is_integer() and abs(sx) < nx and abs(sy) < ny:
+    if g.plain and float(sx).is_integer() and float(sy).is_integer() and abs(sx) < nx and abs(sy) < ny:
         sx, sy = int(sx), int(sy)
         ref = np.zeros_like(np.asarray(c2))
         src = np.asarray(c2)
@@ -1190,7 +1379,7 @@ def check_round(case, ctx):
         known[ys, xs] = True
         diff = (np.asarray(oc) != ref) & known & (np.abs(ro - r2) > band)
         ctx.require(not diff.any(), 'offset_circle:shift', 'offset by (%d,%d) samples is not the shifted centred circle: %d samples differ' % (sx, sy, int(diff.sum())))
-    if cx == 0 and cy == 0:
+    if cx == 0 and cy == 0 and g.plain:
         # centred: mirror images of a sample have bit-identical coordinates, so the symmetry holds for every sample, the
         # ones exactly on the boundary included (no don't-care band) unless the coordinates are float32
         ctx.label('offset_circle:centred')
@@ -1198,7 +1387,7 @@ def check_round(case, ctx):
     if g.exact:
         ctx.tally('samples_exactly_on_the_circle', int((r == r2).sum()))
     # truecircle on a grid normalised to [-1, 1]
-    n = ny
+    n = min(ny, 128)       # (its own square grid; the long axes of the thin shapes are not squared)
     xt, yt = grid(n, n, 2.0 / n, g.layout, 'f32' if g.f32 else None)
     rtarg = keep.arg('r (truecircle)', U.relayout(np.hypot(xt, yt), g.layout))
     rt = rtarg.astype(np.float64)
@@ -1223,9 +1412,8 @@ def check_round(case, ctx):
 
 def strat_polygon(tier):
     N = 40 if tier == 'quick' else 80
-    ax = st.integers(7, N)
     return st.fixed_dictionaries({
-        'shape': st.tuples(ax, ax).map(list), 'dx': st.sampled_from([1.0, 0.1, 0.037]),
+        'shape': shape_s(7, N), 'dx': st.sampled_from(DXS),
         'sides': st.sampled_from([3, 4, 5, 6, 7, 8, 9, 10, 11, 12, 3, 4, 6]),
         'rad': st.integers(50, 1400).map(lambda v: v / 1000), 'grow': st.integers(1, 400).map(lambda v: v / 1000),
         'rotation': st.one_of(st.just(0.0), st.sampled_from([0.0, 90.0, 30.0, 45.0, 180.0]), st.integers(-7200, 10800).map(lambda v: v / 10)),
@@ -1241,7 +1429,7 @@ def check_polygon(case, ctx):
     g = PG(case, ctx, keep)
     x, y, dx = g.x, g.y, g.dx
     ny, nx = x.shape
-    half = min(ny, nx) // 2 * dx
+    half = g.half
     sides, rot = case['sides'], case['rotation']
     R = g.size(case['rad'] * half)
     if R == 0:
@@ -1251,20 +1439,23 @@ def check_polygon(case, ctx):
     m = keep.result('regular_polygon(R)', np.asarray(ctx.call(G.regular_polygon, sides, R, x, y, center=c, rotation=rot)))
     mg = poly_margin(g.xe, g.ye, sides, R, c, rot)
     ctx.nt(bool(np.any(m)) and not bool(np.all(m)))
+    half = max(half, g.ext)
     band = 1e-7 * R + 1e-12 * half
-    msg = compare_mask(ctx, m, mg < 0, mg, band, 'regular_polygon', 'regular_polygon(sides=%d, radius=%g, center=%r, rotation=%g)' % (sides, R, c, rot))
-    ctx.require(msg is None, 'regular_polygon:membership', msg or '')
-    # the coordinates may also be given as the two 1-D axes of the grid (documented: "2D or 1D")
-    x1, y1 = keep.arg('1-D x', U.relayout(x[0, :], g.layout)), keep.arg('1-D y', U.relayout(y[:, 0], g.layout))
-    m1d = ctx.call(G.regular_polygon, sides, R, x1, y1, center=c, rotation=rot)
-    U.check_equal(np.asarray(m1d), np.asarray(m), 'regular_polygon:1d-coordinates', 'mask from 1-D x, y differs from the mask on the 2-D grid')
+    msg = compare_mask(ctx, m, mg < 0, mg, band, 'regular_polygon', 'regular_polygon(sides=%d, radius=%g, center=%r, rotation=%g)%s' % (
+        sides, R, c, rot, '' if g.plain else ' on coordinates in the frame %r' % (g.frame,)))
+    ctx.require(msg is None, 'regular_polygon:membership' + ('' if g.plain else ':separable-frame' if g.separable else ':non-separable-coordinates'), msg or '')
+    if g.separable:
+        # the coordinates may also be given as the two 1-D axes of the grid (documented: "2D or 1D")
+        x1, y1 = keep.arg('1-D x', U.relayout(x[0, :], g.layout)), keep.arg('1-D y', U.relayout(y[:, 0], g.layout))
+        m1d = ctx.call(G.regular_polygon, sides, R, x1, y1, center=c, rotation=rot)
+        U.check_equal(np.asarray(m1d), np.asarray(m), 'regular_polygon:1d-coordinates', 'mask from 1-D x, y differs from the mask on the 2-D grid')
     # vertex 0 at (0, +radius) for rotation 0: the topmost point of the analytic shape is at distance R above the centre
     R2 = R * (1 + case['grow'])
     m2 = ctx.call(G.regular_polygon, sides, R2, x, y, center=c, rotation=rot)
     mg2 = poly_margin(g.xe, g.ye, sides, R2, c, rot)
     viol = (np.asarray(m) & ~np.asarray(m2)) & (np.abs(mg) > band) & (np.abs(mg2) > 1e-7 * R2 + 1e-12 * half)
     ctx.require(not viol.any(), 'regular_polygon:monotone', 'polygon of radius %g not inside polygon of radius %g: %d samples' % (R, R2, int(viol.sum())))
-    if not any(case['center']):
+    if not any(case['center']) and g.plain:
         ops = []
         r_ = rot % 360
         step = 360.0 / sides
@@ -1290,13 +1481,13 @@ def _rot(x, y, deg):
 
 def strat_rect(tier):
     N = 40 if tier == 'quick' else 96
-    ax = st.integers(5, N)
     frac = st.integers(0, 1300).map(lambda v: v / 1000)
     return st.fixed_dictionaries({
-        'shape': st.tuples(ax, ax).map(list), 'dx': st.sampled_from([1.0, 0.1, 0.037]),
+        'shape': shape_s(5, N), 'dx': st.sampled_from(DXS),
         'w': frac, 'h': st.one_of(st.none(), frac), 'grow': st.integers(1, 400).map(lambda v: v / 1000),
-        'angle': st.one_of(st.just(0.0), st.just(90.0), st.sampled_from([45.0, 30.0, 180.0, -90.0, 270.0]), st.integers(-7200, 10800).map(lambda v: v / 10)),
-        'a': frac, 'b': frac, 'eangle': st.one_of(st.just(0.0), st.sampled_from([90.0, 45.0, 180.0]), st.integers(-7200, 10800).map(lambda v: v / 10)),
+        # (also angles next to the special cases 0 and 90 that the routine takes on exact equality)
+        'angle': st.one_of(st.just(0.0), st.just(90.0), st.sampled_from([45.0, 30.0, 180.0, -90.0, 270.0]), st.integers(-7200, 10800).map(lambda v: v / 10), st.sampled_from([1e-6, -1e-6, 1e-12, 90.00001, 89.99999, -1e-9, 360.0, 450.0])),
+        'a': frac, 'b': frac, 'eangle': st.one_of(st.just(0.0), st.sampled_from([90.0, 45.0, 180.0]), st.integers(-7200, 10800).map(lambda v: v / 10), st.sampled_from([1e-6, -1e-6, 1e-12, 90.00001, 89.99999, -1e-9, 360.0, 450.0])),
         **prim_extras(),
     })
 
@@ -1306,16 +1497,19 @@ def check_rect_ellipse(case, ctx):
     from prysm import geometry as G
     keep = Keep(ctx)
     g = PG(case, ctx, keep)
-    x, y, dx = g.x, g.y, g.dx
-    xe, ye = g.xe, g.ye
-    ny, nx = x.shape
-    half = min(ny, nx) // 2 * dx
+    dx = g.dx
+    half = g.half
     w = g.size(case['w'] * half)
     h = w if case['h'] is None else g.size(case['h'] * half)
     ang = case['angle']
+    # angle 0 goes through optimize_xy_separable (x read from the first row, y from the first column): coordinates of a separable frame;
+    # any other angle is evaluated sample by sample: coordinates in any frame
+    x, y, xe, ye = (g.xs, g.ys, g.xse, g.yse) if ang == 0 else (g.x, g.y, g.xe, g.ye)
+    ny, nx = x.shape
     band = g.band(max(half, w, h))
     ctx.label('rect-angle:%s' % ('0' if ang == 0 else '90' if ang == 90 else 'other'), 'square-rect' if case['h'] is None else 'rect')
     kw = {} if case['h'] is None else {'height': h}
+    fsuf = '' if g.plain else ':separable-frame' if g.separable else ':non-separable-coordinates'
     m = keep.result('rectangle(w, h)', np.asarray(ctx.call(G.rectangle, w, x, y, angle=ang, **kw)))
     U.check_shape(m, (ny, nx), 'rectangle')
     nontriv = bool(np.any(m)) and not bool(np.all(m))
@@ -1332,12 +1526,14 @@ def check_rect_ellipse(case, ctx):
             break
         msgs.append(msg)
     else:
-        ctx.fail('rectangle:membership:angle=%s' % ('0' if ang == 0 else '90' if ang == 90 else 'other'), ' / '.join(msgs))
+        ctx.fail('rectangle:membership:angle=%s' % ('0' if ang == 0 else '90' if ang == 90 else 'other') + fsuf, ' / '.join(msgs))
     m2 = ctx.call(G.rectangle, w * (1 + case['grow']), x, y, angle=ang, **({} if case['h'] is None else {'height': h * (1 + case['grow'])}))
     inside2, mg2 = rect_model(sense)
     viol = (np.asarray(m) & ~np.asarray(m2)) & (np.abs(mg) > 100 * band)
     ctx.require(not viol.any(), 'rectangle:monotone', 'rectangle does not grow with its half-extents (%d samples lost)' % int(viol.sum()))
-    if ang in (0, 90):
+    if not g.plain:
+        pass        # the grid symmetries belong to the plain grid
+    elif ang in (0, 90):
         # |x| <= w, |y| <= h on the coordinates themselves (90: the two swapped): mirror images of a sample have bit-identical
         # coordinates, so the symmetry holds for every sample, those exactly on an edge included
         ctx.label('rectangle:strict-symmetry')
@@ -1352,6 +1548,8 @@ def check_rect_ellipse(case, ctx):
     a, b = sorted([g.size(case['a'] * half), g.size(case['b'] * half)], reverse=True)
     eb = 1e-5 if g.f32 else 1e-9
     ea = case['eangle']
+    x, y, xe, ye = g.x, g.y, g.xe, g.ye
+    ny, nx = x.shape
     if b > 0:
         e = keep.result('rotated_ellipse(a, b)', np.asarray(ctx.call(G.rotated_ellipse, a, b, x, y, major_axis_angle=ea)))
         U.check_shape(e, (ny, nx), 'rotated_ellipse')
@@ -1366,12 +1564,13 @@ def check_rect_ellipse(case, ctx):
                 break
             msgs.append(msg)
         else:
-            ctx.fail('rotated_ellipse:membership', ' / '.join(msgs))
+            ctx.fail('rotated_ellipse:membership' + fsuf, ' / '.join(msgs))
         e2 = np.asarray(ctx.call(G.rotated_ellipse, a * (1 + case['grow']), b * (1 + case['grow']), x, y, major_axis_angle=ea))
         viol = (e != 0) & (e2 == 0) & (np.abs(q - 1) > eb)
         ctx.require(not viol.any(), 'rotated_ellipse:monotone', 'ellipse does not grow with its semi-axes')
         # major axis along x: the quadratic form is evaluated on x^2 and y^2, identical for the mirror images of a sample
-        check_symmetry(ctx, e, q - 1, -1.0 if ea == 0 else eb, ['rot180'] + (['flipx', 'flipy'] if ea % 90 == 0 else []), 'rotated_ellipse', 'rotated_ellipse(%g,%g,%g)' % (a, b, ea))
+        if g.plain:
+            check_symmetry(ctx, e, q - 1, -1.0 if ea == 0 else eb, ['rot180'] + (['flipx', 'flipy'] if ea % 90 == 0 else []), 'rotated_ellipse', 'rotated_ellipse(%g,%g,%g)' % (a, b, ea))
     ctx.nt(nontriv)
     keep.verify('rect-ellipse')
 
@@ -1385,8 +1584,26 @@ def strat_fillet(tier):
         'w': frac, 'h': frac, 'cf': st.integers(50, 950).map(lambda v: v / 1000), 'grow': st.integers(1, 400).map(lambda v: v / 1000),
         'center': st.one_of(st.just([0.0, 0.0]), st.tuples(st.integers(-300, 300).map(lambda v: v / 1000), st.integers(-300, 300).map(lambda v: v / 1000)).map(list)),
         'angle': st.one_of(st.just(0.0), st.just(0.0), st.sampled_from([90.0, 45.0, 30.0, 180.0, -90.0]), st.integers(-3600, 3600).map(lambda v: v / 10)),
-        'layout': U.layouts,
+        'layout': U.layouts, 'frame': frame_s(),
     })
+
+
+def fillet_frame(fr):
+    """rectangle_with_corner_fillets reads the sample spacing from x[0, 1] - x[0, 0] (number of points on the corner arcs): the frames
+    of this clause keep that difference positive - rotations within +-75 degrees (+-40 combined with shear <= 0.5), rows (not columns)
+    reversed / permuted, never transposed, x and y two arrays"""
+    if fr is None:
+        return None
+    fr = dict(fr)
+    if fr['kind'] == 'same-object':
+        fr['kind'] = 'rotated'
+    lim = 40.0 if fr['kind'] == 'general' else 75.0
+    fr['rot'] = (float(fr['rot']) + lim) % (2 * lim) - lim
+    if fr['kind'] == 'general':
+        fr['shear'] = max(-0.5, min(0.5, float(fr['shear'])))
+    fr['order'] = {'cols-reversed': 'rows-reversed', 'both-reversed': 'rows-reversed', 'cols-permuted': 'rows-permuted', 'both-permuted': 'rows-permuted',
+                   'transposed': 'grid'}.get(fr['order'], fr['order'])
+    return fr
 
 
 def check_fillet(case, ctx):
@@ -1397,9 +1614,20 @@ def check_fillet(case, ctx):
     ny, nx = case['shape']
     dx = float(case['dx'])
     x, y = grid(ny, nx, dx, case.get('layout', 'C'))
+    fr = fillet_frame(case.get('frame'))
+    if fr is not None:
+        x, y = framed(*grid(ny, nx, dx), fr)
+        x, y = U.relayout(x, case.get('layout', 'C')), U.relayout(y, case.get('layout', 'C'))
+        ctx.label('frame:' + fr['kind'], 'sample-order:' + fr['order'])
+    else:
+        ctx.label('frame:plain-grid')
     keep.arg('x', x), keep.arg('y', y)
     xe, ye = x.astype(np.float64), y.astype(np.float64)
     half = min(ny, nx) // 2 * dx
+    # the spacing the routine reads; the arcs are sampled about once per that spacing
+    dxc = float(xe[0, 1] - xe[0, 0])
+    if not dxc > 0.05 * dx:
+        ctx.exclude('frame in which x[0, 1] - x[0, 0] is not a positive sample spacing')
     w, h = case['w'] * half, case['h'] * half
     c = case['cf'] * min(w, h)
     cen = (case['center'][0] * half, case['center'][1] * half)
@@ -1415,7 +1643,7 @@ def check_fillet(case, ctx):
         return mg <= 0, mg
     # the outline is a polygon whose arcs are sampled about once per sample spacing: it stays inside the analytic outline by at most
     # the sagitta of one chord, (chord)^2 / (8 c) with chord <= 2 dx
-    band = (2 * dx) ** 2 / (8 * c) + 1e-7 * max(half, w, h)
+    band = (2 * max(dx, dxc)) ** 2 / (8 * c) + 1e-7 * max(half, w, h, float(np.abs(xe).max()), float(np.abs(ye).max()))
     m = keep.result('rectangle_with_corner_fillets', np.asarray(ctx.call(G.rectangle_with_corner_fillets, w, h, c, x, y, center=cen, rotation=ang)))
     U.check_shape(m, (ny, nx), 'fillet-rectangle')
     msgs = []
@@ -1426,26 +1654,25 @@ def check_fillet(case, ctx):
             break
         msgs.append(msg)
     else:
-        ctx.fail('fillet-rectangle:membership:angle=%s' % ('0' if ang == 0 else 'other'), ' / '.join(msgs))
+        ctx.fail('fillet-rectangle:membership:angle=%s' % ('0' if ang == 0 else 'other') + ('' if fr is None else ':coordinates-in-another-frame'), ' / '.join(msgs))
     ctx.nt(bool(np.any(m)) and not bool(np.all(m)) and bool(np.any((mg > -c) & (mg <= 0))))
     k = 1 + case['grow']
     m2 = np.asarray(ctx.call(G.rectangle_with_corner_fillets, w * k, h * k, c * k, x, y, center=cen, rotation=ang))
     viol = (m != 0) & (m2 == 0) & (np.abs(mg) > band)
     ctx.require(not viol.any(), 'fillet-rectangle:monotone', 'the filleted rectangle does not grow with its size (%d samples lost)' % int(viol.sum()))
-    if ang == 0 and cen == (0.0, 0.0):
+    if ang == 0 and cen == (0.0, 0.0) and fr is None:
         check_symmetry(ctx, m, mg, band, ['flipx', 'flipy', 'rot180'], 'fillet-rectangle', 'rectangle_with_corner_fillets(%g,%g,%g)' % (w, h, c))
     keep.verify('fillet-rectangle')
 
 
 def strat_spider(tier):
     N = 40 if tier == 'quick' else 96
-    ax = st.integers(5, N)
     return st.fixed_dictionaries({
-        'shape': st.tuples(ax, ax).map(list), 'dx': st.sampled_from([1.0, 0.1, 0.037]),
+        'shape': shape_s(5, N), 'dx': st.sampled_from(DXS),
         'vanes': st.sampled_from([1, 2, 3, 4, 5, 6, 7, 8]), 'width': st.integers(0, 6000).map(lambda v: v / 1000),    # in samples
         'grow': st.integers(1, 2000).map(lambda v: v / 1000),
-        'rotation': st.one_of(st.just(0.0), st.sampled_from([0.0, 90.0, 45.0, 180.0]), st.integers(-7200, 10800).map(lambda v: v / 10)),
-        'rad': st.booleans(),
+        'rotation': st.one_of(st.just(0.0), st.sampled_from([0.0, 90.0, 45.0, 180.0]), st.integers(-7200, 10800).map(lambda v: v / 10), st.sampled_from([1e-6, -1e-6, 1e-12, 90.00001, 89.99999, -1e-9, 360.0, 450.0])),
+        'rad': st.booleans(), 'rad_flag': st.sampled_from(['bool', 'bool', 'int', 'numpy']),
         'center': st.one_of(st.just([0.0, 0.0]), st.tuples(st.integers(-40, 40), st.integers(-40, 40)).map(lambda t: [t[0] / 10, t[1] / 10])),
         **prim_extras(),
     })
@@ -1476,13 +1703,16 @@ def check_spider(case, ctx):
     x, y, dx = g.x, g.y, g.dx
     xe, ye = g.xe, g.ye
     ny, nx = x.shape
-    half = max(ny, nx) * dx
+    half = max(max(ny, nx) * dx, 2 * g.ext)
     vanes, width, rot = case['vanes'], g.size(case['width'] * dx) * (2 if g.snap else 1), case['rotation']   # snapped: half-width on a sample row
     c = (case['center'][0] * dx, case['center'][1] * dx)
     band = g.band(half)
     ctx.label('vanes:%d' % vanes, 'rot0' if rot == 0 else 'rotated', 'rad' if case['rad'] else 'deg', 'offset' if any(case['center']) else 'centred')
     rarg = math.radians(rot) if case['rad'] else rot
-    m = ctx.call(G.spider, vanes, width, x, y, rotation=rarg, center=c, rotation_is_rad=case['rad'])
+    # the flag as the object True / False, as 1 / 0, as a numpy bool
+    flag = {'bool': bool, 'int': int, 'numpy': np.bool_}[case.get('rad_flag', 'bool')](case['rad'])
+    ctx.label('rotation_is_rad-as:' + case.get('rad_flag', 'bool'))
+    m = ctx.call(G.spider, vanes, width, x, y, rotation=rarg, center=c, rotation_is_rad=flag)
     m = keep.result('spider(width)', np.asarray(m))
     U.check_shape(m, (ny, nx), 'spider')
     ctx.nt(bool(m.any()) and not bool(m.all()))
@@ -1494,13 +1724,13 @@ def check_spider(case, ctx):
             break
         msgs.append(msg)
     else:
-        ctx.fail('spider:membership', ' / '.join(msgs))
+        ctx.fail('spider:membership' + ('' if g.plain else ':separable-frame' if g.separable else ':non-separable-coordinates'), ' / '.join(msgs))
     w2 = width * (1 + case['grow']) + 0.3 * dx
-    m2 = np.asarray(ctx.call(G.spider, vanes, w2, x, y, rotation=rarg, center=c, rotation_is_rad=case['rad']))
+    m2 = np.asarray(ctx.call(G.spider, vanes, w2, x, y, rotation=rarg, center=c, rotation_is_rad=flag))
     _, mgb = spider_model(xe, ye, vanes, w2, sense * rot, c)
     viol = (~m & m2) & (mg > band) & (mgb > band)
     ctx.require(not viol.any(), 'spider:monotone', 'vanes of width %g block %d samples that vanes of width %g do not' % (width, int(viol.sum()), w2))
-    if not any(case['center']):
+    if not any(case['center']) and g.plain:
         ops = []
         if rot % 360 == 0 or (vanes % 2 == 0 and rot % 180 == 0):
             ops.append('flipy')
